@@ -3,6 +3,10 @@
 // Contracts for package ipfix, checked by /verif/govc (comment-only file; it declares nothing).
 package ipfix
 
+// decoding does a bounded amount of work per datagram (C02): no function of this package may wait on a channel;
+// a channel operation has to be a case of a select with a default clause
+//@ pkgopt nonblocking *
+
 //@ globalinv shardNo == 32
 // the template map of a shard may only be touched under the shard's RWMutex (C10)
 //@ guarded TemplatesShard.Templates
@@ -88,8 +92,10 @@ package ipfix
 //@   ensures err == nil ==> r.count >= old(r.count) + 4 && tr.TemplateID == be16(r.base, old(r.count)) && tr.FieldCount == be16(r.base, old(r.count)+2)
 //@   ensures err == nil ==> len(tr.FieldSpecifiers) == old(len(tr.FieldSpecifiers)) + tr.FieldCount && len(tr.ScopeFieldSpecifiers) == old(len(tr.ScopeFieldSpecifiers))
 //@   ensures err == nil ==> r.count >= old(r.count) + 4 + 4*tr.FieldCount
+//@   ensures [accept] old(len(r.data)) >= 4 + 8*be16(r.base, old(r.count)+2) ==> err == nil   // a template record that is wholly present is accepted: parsing fails only when the octets run out
 //@   modifies tr, r.data, r.count
 //@   loop 1 @ for i > 0 #10924e54
+//@     invariant [consumed] r.count <= old(r.count) + 4 + 8*(th.FieldCount - i)
 //@     invariant rdr(r) && r.base == old(r.base) && tr != nil
 //@     invariant 0 <= i && i <= th.FieldCount && tr.TemplateID == th.TemplateID && tr.FieldCount == th.FieldCount
 //@     invariant th.TemplateID == be16(r.base, old(r.count)) && th.FieldCount == be16(r.base, old(r.count)+2)
@@ -104,8 +110,10 @@ package ipfix
 //@   ensures inv(r) && r.base == old(r.base) && r.count >= old(r.count)
 //@   ensures err == nil ==> r.count >= old(r.count) + 6 && tr.TemplateID == be16(r.base, old(r.count)) && tr.FieldCount == be16(r.base, old(r.count)+2) && tr.ScopeFieldCount == be16(r.base, old(r.count)+4)
 //@   ensures [lengths] err == nil ==> len(tr.ScopeFieldSpecifiers) == old(len(tr.ScopeFieldSpecifiers)) + tr.ScopeFieldCount && len(tr.FieldSpecifiers) == old(len(tr.FieldSpecifiers)) + (tr.FieldCount - tr.ScopeFieldCount) % 65536
+//@   ensures [accept] old(len(r.data)) >= 6 + 8*(be16(r.base, old(r.count)+4) + (be16(r.base, old(r.count)+2) - be16(r.base, old(r.count)+4)) % 65536) ==> err == nil   // an options template record that is wholly present is accepted, whatever its split into scope and option fields
 //@   modifies tr, r.data, r.count
 //@   loop 1 @ for i > 0 #a5a220df
+//@     invariant [consumed] r.count <= old(r.count) + 6 + 8*(th.ScopeFieldCount - i)
 //@     invariant rdr(r) && r.base == old(r.base) && tr != nil && r.count >= old(r.count) + 6
 //@     invariant tr.TemplateID == be16(r.base, old(r.count)) && tr.FieldCount == be16(r.base, old(r.count)+2) && tr.ScopeFieldCount == be16(r.base, old(r.count)+4)
 //@     invariant 0 <= i && i <= th.ScopeFieldCount && th.ScopeFieldCount == tr.ScopeFieldCount && th.FieldCount == tr.FieldCount && len(tr.ScopeFieldSpecifiers) == old(len(tr.ScopeFieldSpecifiers)) + (th.ScopeFieldCount - i) && len(tr.FieldSpecifiers) == old(len(tr.FieldSpecifiers))
@@ -113,6 +121,7 @@ package ipfix
 //@     decreases i
 //@   loop 2 @ for i > 0 #10924e54
 //@     invariant rdr(r) && r.base == old(r.base) && tr != nil && r.count >= old(r.count) + 6
+//@     invariant [consumed] r.count <= old(r.count) + 6 + 8*(th.ScopeFieldCount + ((th.FieldCount - th.ScopeFieldCount) % 65536 - i))
 //@     invariant tr.TemplateID == be16(r.base, old(r.count)) && tr.FieldCount == be16(r.base, old(r.count)+2) && tr.ScopeFieldCount == be16(r.base, old(r.count)+4)
 //@     invariant 0 <= i && i <= (th.FieldCount - th.ScopeFieldCount) % 65536 && th.ScopeFieldCount == tr.ScopeFieldCount && th.FieldCount == tr.FieldCount && len(tr.ScopeFieldSpecifiers) == old(len(tr.ScopeFieldSpecifiers)) + th.ScopeFieldCount && len(tr.FieldSpecifiers) == old(len(tr.FieldSpecifiers)) + ((th.FieldCount - th.ScopeFieldCount) % 65536 - i)
 //@     step [option] specAppended(tr.FieldSpecifiers, iter(tr.FieldSpecifiers), r, iter(r.count)) && tr.ScopeFieldSpecifiers == iter(tr.ScopeFieldSpecifiers)
@@ -166,6 +175,7 @@ package ipfix
 //@     step [length] fdLength(tr.ScopeFieldSpecifiers[i], m, readLength, d.reader, iter(d.reader.count))
 //@     step [advance] fdAdvance(tr.ScopeFieldSpecifiers[i], m, readLength, d.reader, iter(d.reader.count))
 //@     step [value] fdValue(fields[len(fields)-1], tr.ScopeFieldSpecifiers[i], m, readLength, d.reader)
+//@     leave [unknown.nonfatal] !ok ==> nonfatal(ret2)   // an element the information model does not know ends the record with a non-fatal error (C09: the set is skipped, its neighbours are decoded)
 //@     decreases len(tr.ScopeFieldSpecifiers) - i
 //@   loop 2 @ for i < len(tr.FieldSpecifiers) #8bb4d76d
 //@     invariant rdr(d.reader) && d.reader.base == old(d.reader.base) && d.raddr == old(d.raddr) && d.reader.count >= old(d.reader.count) && r == d.reader
@@ -175,22 +185,37 @@ package ipfix
 //@     step [length] fdLength(tr.FieldSpecifiers[i], m, readLength, d.reader, iter(d.reader.count))
 //@     step [advance] fdAdvance(tr.FieldSpecifiers[i], m, readLength, d.reader, iter(d.reader.count))
 //@     step [value] fdValue(fields[len(fields)-1], tr.FieldSpecifiers[i], m, readLength, d.reader)
+//@     leave [unknown.nonfatal] !ok ==> nonfatal(ret2)
 //@     decreases len(tr.FieldSpecifiers) - i
 
 // the shortest data record a template describes (RFC 7011 3.3.1: padding is shorter than any record);
-// specMinRec names the function minRecordLen computes (a pure function of the template and the information model)
-//@ uninterp specMinRec(tr TemplateRecord) mathint
+// The shortest record a template describes: the sum over its scope and option/flow field specifiers of the field
+// length, a variable-length string or octet array (length 65535, RFC 7011 7) counting for its one-octet length prefix;
+// at least 1. sumMin(fs, k) is the sum over the first k specifiers, defined by the two axioms (primitive recursion;
+// the step axiom is instantiated only where a contract writes sumMinStep(fs, k)).
+//@ spec fieldMinIn(f TemplateFieldSpecifier, im map[ElementKey]InfoElementEntry) mathint = (f.Length == 65535 && !im.isnil && has(im, mkstruct(ElementKey, f.EnterpriseNo, f.ElementID)) && (im[mkstruct(ElementKey, f.EnterpriseNo, f.ElementID)].Type == String || im[mkstruct(ElementKey, f.EnterpriseNo, f.ElementID)].Type == OctetArray)) ? 1 : f.Length
+//@ spec fieldMin(f TemplateFieldSpecifier) mathint = fieldMinIn(f, InfoModel)
+//@ uninterp sumMinIn(fs []TemplateFieldSpecifier, k mathint, im map[ElementKey]InfoElementEntry) mathint
+//@ uninterp sumMinStep(fs []TemplateFieldSpecifier, k mathint) bool
+//@ axiom local.sumMin.zero: forall fs []TemplateFieldSpecifier, im map[ElementKey]InfoElementEntry :: {sumMinIn(fs, 0, im)} sumMinIn(fs, 0, im) == 0
+//@ axiom local.sumMin.step: forall fs []TemplateFieldSpecifier, k mathint, im map[ElementKey]InfoElementEntry :: {sumMinStep(fs, k), sumMinIn(fs, k, im)} sumMinStep(fs, k) && (k >= 0 ==> sumMinIn(fs, k+1, im) == sumMinIn(fs, k, im) + fieldMinIn(fs.arr[fs.off+k], im))
+//@ spec sumMin(fs []TemplateFieldSpecifier, k mathint) mathint = sumMinIn(fs, k, InfoModel)
+//@ spec recMin(tr TemplateRecord) mathint = sumMin(tr.ScopeFieldSpecifiers, len(tr.ScopeFieldSpecifiers)) + sumMin(tr.FieldSpecifiers, len(tr.FieldSpecifiers))
+//@ spec specMinRec(tr TemplateRecord) mathint = recMin(tr) < 1 ? 1 : recMin(tr)
 //@ func (TemplateFieldSpecifier).minLen
 //@   names f _ m ok
 //@   ensures 0 <= result && result <= 65535
+//@   ensures [def] result == fieldMin(f)
 //@ func (TemplateRecord).minRecordLen
 //@   names tr _ n _ f _ f
 //@   ensures result >= 1
-//@   ensures [trusted.def] result == specMinRec(tr)
+//@   ensures [def] result == specMinRec(tr)   // computed from the field specifiers and the information model, from nothing else
 //@   loop 1 @ range tr.ScopeFieldSpecifiers #8fdc8587
 //@     invariant 0 <= n && n <= 65535 * range_i
+//@     invariant [sum] n == sumMin(tr.ScopeFieldSpecifiers, range_i) && sumMinStep(tr.ScopeFieldSpecifiers, range_i)
 //@   loop 2 @ range tr.FieldSpecifiers #8fdc8587
 //@     invariant 0 <= n && n <= 65535 * (len(tr.ScopeFieldSpecifiers) + range_i)
+//@     invariant [sum] n == sumMin(tr.ScopeFieldSpecifiers, len(tr.ScopeFieldSpecifiers)) + sumMin(tr.FieldSpecifiers, range_i) && sumMinStep(tr.FieldSpecifiers, range_i)
 
 // ---- sets and messages --------------------------------------------------------------------------
 
@@ -200,6 +225,9 @@ package ipfix
 //@   ensures result != nil && result.raddr == raddr && rdr(result.reader) && result.reader.base == b && result.reader.count == 0
 
 //@ func (*Decoder).decodeSet
+//@   names d mem msg _ startCount setHeader err tr err ok minLen setID templateID err tr data leftoverBytes _ skipErr
+//@   opt lasterr decodeData
+//@   opt ownership a template handed to the cache is not written again by the set loop (no specifier buffer shared between templates)
 //@   names d mem msg _ startCount setHeader err tr err ok minLen setID templateID err tr data leftoverBytes _ skipErr
 //@   opt countcalls insert
 //@   callassert insert: sameview(arg1, d.raddr) && arg0 == arg2.TemplateID   // a parsed template is stored under the exporter's own address and its own id
@@ -232,6 +260,7 @@ package ipfix
 //@     exit [allrecords] err == nil && setHeader.SetID > 255 && setHeader.Length >= d.reader.count - startCount ==> setHeader.Length - (d.reader.count - startCount) < specMinRec(tr) || len(d.reader.data) < specMinRec(tr)   // records are decoded as long as one more fits in the set; what is left is padding
 //@     invariant [tpl] setHeader.SetID > 255 && cacheHas(old(mem), d.raddr, setHeader.SetID) ==> tr == cacheGet(old(mem), d.raddr, setHeader.SetID)   // every record of the set is decoded with the template retrieved for (exporter, set id)
 //@     step [record] len(msg.DataSets) == iter(len(msg.DataSets)) || (len(msg.DataSets) == iter(len(msg.DataSets)) + 1 && setHeader.SetID > 255)
+//@     step [errclass] setHeader.SetID > 255 && nonfatal(decodeData_err) ==> nonfatal(err)   // a record-level error keeps its class: the rest of the set is skipped and the message goes on (C09)
 //@     step [stored] (setHeader.SetID == 2 || setHeader.SetID == 3) && err == nil ==> calls_insert == iter(calls_insert) + 1   // every template record that parses is stored (with the arguments the call assertions fix), exactly once
 //@     decreases len(d.reader.data) + (err == nil ? 1 : 0)
 
@@ -318,6 +347,8 @@ package ipfix
 
 // the write goes through the shard pointer obtained from m: its effect on the view is Go's map assignment
 //@ func (MemCache).insert
+//@   names m id addr tr shard key
+//@   opt consumes tr   the cache keeps the template, specifier slices included: the caller must not go on writing into them (C04/C10)
 //@   names m id addr tr shard key
 //@   requires wellFormed(m)
 //@   ensures wellFormed(m)
